@@ -25,7 +25,8 @@ EXPLANATION = (
     '(the list the regeneration rule depends on); R2a every documented test key is projected from the TestSerialisation field '
     'mtest reads; R2b install plan tag/subproject are the fields Installer.should_install filters on and the five installed '
     'categories are covered; R2c list_installed derives source and destination from the same fields as the per-kind installers; '
-    'R3 mintro and the backend agree on the target output directory for both layouts; R4 introspection is generated only after '
+    'R3 mintro and the backend agree on the target output directory for both layouts; R5 a path-like build definition file is recorded only '
+    'after the build-directory test, which precedes the source-directory test (the build dir may be nested in the source dir); R4 introspection is generated only after '
     'backend.generate returned, for the same build/backend pair. '
     'Does NOT decide equality of the two generated artefacts for a concrete project (run-time values).')
 ASSUMPTIONS = ['pickle round-trips TestSerialisation/InstallData unchanged',
@@ -1208,6 +1209,156 @@ def r2c(ctx: RuleCtx) -> None:
     ctx.floor('installed categories compared with their installer', n, 5)
 
 
+
+# ---------------------------------------------------------------------------
+# R5 build-definition files: the build-dir test precedes the source-dir test on every recording path (K7)
+
+def _containment_kind(e: ast.AST, loc: Locals) -> T.Optional[str]:
+    """`<dir> in <path>.parents` / `<path>.is_relative_to(<dir>)` -> 'build' | 'src' (dir resolved through single-definition locals)."""
+    while isinstance(e, ast.UnaryOp) and isinstance(e.op, ast.Not):
+        e = e.operand
+    d: T.Optional[ast.AST] = None
+    if isinstance(e, ast.Compare) and len(e.ops) == 1 and isinstance(e.ops[0], (ast.In, ast.NotIn)) \
+            and isinstance(e.comparators[0], ast.Attribute) and e.comparators[0].attr == 'parents':
+        d = e.left
+    elif isinstance(e, ast.Call) and call_method(e) == 'is_relative_to' and len(e.args) == 1:
+        d = e.args[0]
+    mentions = set()
+    for n in ast.walk(e):
+        if isinstance(n, ast.Name):
+            try:
+                r = loc.resolve(n)
+            except Undecided:
+                continue
+            for c in ast.walk(r):
+                if isinstance(c, ast.Call) and call_method(c) in ('get_build_dir', 'get_source_dir'):
+                    mentions.add('build' if call_method(c) == 'get_build_dir' else 'src')
+        elif isinstance(n, ast.Call) and call_method(n) in ('get_build_dir', 'get_source_dir'):
+            mentions.add('build' if call_method(n) == 'get_build_dir' else 'src')
+    if not mentions:
+        return None
+    if d is None or len(mentions) != 1:
+        raise Undecided(f'add_build_def_file: directory test outside the understood idioms: {short(e)}')
+    return next(iter(mentions))
+
+
+def r5(ctx: RuleCtx) -> None:
+    imod = ctx.repo.module(INTERP)
+    fn = imod.func('Interpreter.add_build_def_file')
+    qn = 'Interpreter.add_build_def_file'
+    p0 = param(fn, 0, qn)
+    loc = Locals(fn)
+    # the recorded collection is what becomes Build.def_files (R1e ties that to intro-buildsystem_files.json)
+    getter = imod.func('Interpreter.get_build_def_files')
+    gfl = Flow(getter)
+    rets = [r for r in ast.walk(getter) if isinstance(r, ast.Return) and r.value is not None]
+    smod = ctx.repo.module(MSETUP)
+    gen = smod.cls('MesonApp')
+    sets = [n for n in ast.walk(gen) if isinstance(n, ast.Assign) and len(n.targets) == 1 and isinstance(n.targets[0], ast.Attribute) and n.targets[0].attr == 'def_files']
+    ok = bool(rets) and all('attr:self.build_def_files' in gfl.origins(r.value) for r in rets) and len(sets) == 1 \
+        and isinstance(sets[0].value, ast.Call) and call_method(sets[0].value) == 'get_build_def_files'
+    ctx.require(ok, 'Build.def_files = Interpreter.get_build_def_files() = the collection add_build_def_file records into', smod, 'MesonApp',
+                sets[0] if sets else 'def_files', 'Build.def_files is no longer the interpreter\'s build_def_files collection')
+    from ..tables import canon
+    n_rec = n_checked = 0
+    for pth in enumerate_paths(fn.body, handlers=True):
+        recs = [i for i, ev in enumerate(pth.events) if ev.kind == 'stmt' and any(recv(c) == 'self.build_def_files' and call_method(c) in ('add', 'update', 'append')
+                                                                                 for c in walk_no_nested(ev.node) if isinstance(c, ast.Call))]
+        if not recs:
+            continue
+        n_rec += 1
+        kinds: T.List[T.Tuple[int, str, bool]] = []
+        is_file: T.Optional[bool] = None
+        for i, ev in enumerate(pth.events[:recs[0]]):
+            if ev.kind != 'cond':
+                continue
+            a, v = canon(ev.node, bool(ev.val))
+            if a.kind == 'isinstance' and a.args[0] == p0 and any(t.split('.')[-1] == 'File' for t in a.args[1]):
+                is_file = v
+                continue
+            k = _containment_kind(ev.node, loc)
+            if k is not None:
+                neg = isinstance(ev.node, ast.Compare) and isinstance(ev.node.ops[0], ast.NotIn)
+                kinds.append((i, k, bool(ev.val) != neg))
+        if is_file is None:
+            raise Undecided(f'{qn}: a recording path does not decide isinstance({p0}, File)')
+        if is_file:
+            continue   # File objects: built files are rejected by their own flag, nothing to order
+        n_checked += 1
+        b_out = [i for i, k, inside in kinds if k == 'build' and not inside]
+        s_any = [i for i, k, inside in kinds if k == 'src']
+        what = ' & '.join(('' if v else 'not ') + t for t, v in pth.conds() if 'parents' in t or 'relative_to' in t) or 'no directory test'
+        okp = bool(b_out) and (not s_any or b_out[0] < s_any[0])
+        first_src = pth.events[s_any[0]].node if s_any else fn
+        ctx.require(okp, f'{qn}: recording path [{what}] has ruled out the build directory before looking at the source directory', imod, qn,
+                    f'path: {what}', f'a path-like build definition file is recorded on the path [{what}] without first ruling out the build directory: with the '
+                    'build directory inside the source tree (`meson setup build`) a generated file is inside both, is relativised to the source dir and listed in '
+                    'intro-buildsystem_files.json', first_src)
+    ctx.floor('recording paths of add_build_def_file', n_rec, 5)
+    ctx.floor('recording paths for path-like files', n_checked, 4)
+
+
+
+# ---------------------------------------------------------------------------
+# R2d install_subdir: plan destination and install destination append the same source basename on every path
+
+def _join_parts(e: ast.AST) -> T.List[ast.AST]:
+    if isinstance(e, ast.Call) and call_method(e) == 'join' and recv(e) in ('os.path', 'posixpath') and not e.keywords:
+        out: T.List[ast.AST] = []
+        for a in e.args:
+            out.extend(_join_parts(a))
+        return out
+    return [e]
+
+
+def r2d(ctx: RuleCtx) -> None:
+    bm, qn, fn = _resolved_method(ctx, 'generate_subdir_install')
+    loops = [l for l in fn.body if isinstance(l, ast.For)]
+    if len(loops) != 1:
+        raise Undecided(f'{qn}: expected one loop over the install_subdir objects')
+    sig = params(ctx.repo.module(BACKENDS).func('SubdirInstallData.__init__'))
+    if sig[:3] != ['path', 'install_path', 'install_path_name']:
+        raise Undecided(f'SubdirInstallData.__init__ signature changed: {sig}')
+    n = 0
+    for pth in enumerate_paths(loops[0].body):
+        env: T.Dict[str, ast.AST] = {}
+        ctor: T.Optional[ast.Call] = None
+        for ev in pth.events:
+            if ev.kind != 'stmt':
+                continue
+            st = ev.node
+            if isinstance(st, (ast.Assign, ast.AnnAssign)) and getattr(st, 'value', None) is not None:
+                tg = st.targets[0] if isinstance(st, ast.Assign) and len(st.targets) == 1 else getattr(st, 'target', None)
+                val = _Sub(env).visit(copy.deepcopy(st.value))
+                for c in ast.walk(val):
+                    if isinstance(c, ast.Call) and call_method(c) == 'SubdirInstallData':
+                        ctor = c
+                if isinstance(tg, ast.Name):
+                    env[tg.id] = val
+            elif isinstance(st, ast.Expr):
+                for c in ast.walk(_Sub(env).visit(copy.deepcopy(st.value))):
+                    if isinstance(c, ast.Call) and call_method(c) == 'SubdirInstallData':
+                        ctor = c
+        if ctor is None:
+            continue
+        args = {sig[i]: a for i, a in enumerate(ctor.args) if i < len(sig)}
+        args.update({k.arg: k.value for k in ctor.keywords if k.arg})
+        if 'install_path' not in args or 'install_path_name' not in args or 'path' not in args:
+            raise Undecided(f'{qn}: SubdirInstallData(...) call not understood: {short(ctor)}')
+        src = norm(args['path'])
+        tails = {}
+        for k in ('install_path', 'install_path_name'):
+            tails[k] = [norm(c) for c in _join_parts(args[k]) if isinstance(c, ast.Call) and call_method(c) == 'basename']
+        n += 1
+        what = ' & '.join(('' if v else 'not ') + t for t, v in pth.conds()) or 'always'
+        ok = tails['install_path'] == tails['install_path_name'] and all(x == f'os.path.basename({src})' for x in tails['install_path'])
+        ctx.require(ok, f'{qn} [{what}]: install destination and plan destination both end with {"basename(source dir)" if tails["install_path"] else "no basename"}', bm, qn,
+                    f'path: {what}', f'on the path [{what}] the directory is installed to <dir>{"/basename(source dir)" * len(tails["install_path"])} '
+                    f'(SubdirInstallData.install_path, used by minstall and intro-installed.json) but intro-install_plan.json reports '
+                    f'<dir>{"/basename(source dir)" * len(tails["install_path_name"])} (install_path_name)', ctor)
+    ctx.floor('paths through generate_subdir_install that build a SubdirInstallData', n, 8)
+
+
 RULES = [
     Rule('C15.R1a', 'tests/benchmarks: the pickled serialisation is the introspected one', r1a),
     Rule('C15.R1b', 'install plan/installed/targets: install.dat and the JSON share create_install_data()', r1b),
@@ -1217,7 +1368,9 @@ RULES = [
     Rule('C15.R2a', 'documented test keys are projected from the TestSerialisation fields mtest reads', r2a),
     Rule('C15.R2b', 'install plan reports the fields should_install filters on; five categories covered', r2b),
     Rule('C15.R2c', 'list_installed agrees with the per-kind installers on source and destination fields', r2c),
+    Rule('C15.R2d', 'install_subdir: plan and install destinations append the same source basename on every path', r2d),
     Rule('C15.R3', 'mintro and backend agree on the target output directory', r3),
+    Rule('C15.R5', 'add_build_def_file rules out the build dir before testing the source dir on every recording path', r5),
     Rule('C15.R4', 'introspection generated only after backend.generate, same build/backend', r4),
 ]
 _ = (Flow, call_name, walk_no_nested, method_calls, const_strs, attrs_of, intro_table, BACKENDS, MTEST, MINSTALL, INTERP, IDEDOC)
